@@ -359,3 +359,101 @@ class FLeaf(FSearch):
 
 
 ANALYSIS = {"F-LEAF": FLeaf}
+
+
+# ---------------------------------------------------------------------------------------------------
+BOX = z3.Function("py_number_of", INT, INT)          # the Python number object a C value is turned into
+BOXERS = ("PyLong_FromLong", "PyLong_FromLongLong", "PyLong_FromUnsignedLong", "PyLong_FromUnsignedLongLong",
+          "longlong_as_object", "ulonglong_as_object", "PyFloat_FromDouble", "PyLong_FromSsize_t")
+
+
+class FGet(FSearch):
+    """F-LEAF, lookups: `_bucket_get(self, key, has_key)` - what `[]`, `get`, `in`, `has_key` run on a C leaf.
+      has_key != 0:  returns NULL (the number could not be allocated) or the number `has_key` if the key is in the leaf,
+                     0 if it is not                                         (`F-LEAF:_bucket_get:has_key:<clause>`)
+      has_key == 0:  key present at i => returns the object of values[i] (the stored object itself for object values,
+                     the number made from it otherwise) or NULL on allocation failure;
+                     key absent    => returns NULL with KeyError(key) set          (`F-LEAF:_bucket_get:lookup:<clause>`)
+    "present" / "absent" / i are the search result, whose exactness is F-SEARCH's postcondition (same run)."""
+    family = "F-LEAF"
+
+    @classmethod
+    def applies(cls, tu, fn):
+        return fn == "_bucket_get" and FSearch.applies(tu, fn)
+
+    def on_entry(self, st):
+        super().on_entry(st)
+        self.after = False
+        ps = {p.get("name"): p["id"] for p in self.fn.get("inner", []) if p["kind"] == "ParmVarDecl"}
+        if not {"self", "keyarg", "has_key"} <= set(ps):
+            raise Unsupported("_bucket_get's parameters not found")
+        self.P = {k: st.vars[v] for k, v in ps.items()}
+        self.keyerr = []           # (guard, object) of PyErr_SetObject(PyExc_KeyError, obj) after the search
+        self.boxed = {}            # result term -> C value boxed
+
+    def post(self, c, st):
+        super().post(c, st)
+        self.c = c
+        self.E = st.clone()
+        self.after = True
+
+    def on_call(self, name, args, n, st):
+        if not self.after:
+            return super().on_call(name, args, n, st)
+        if name in BOXERS:
+            r = fresh("num")
+            ok = fresh("alloc_ok", z3.BoolSort())
+            self.assumptions.append(z3.If(ok, r == BOX(args[0]), r == 0))
+            self.assumptions.append(BOX(args[0]) != 0)
+            return r
+        if name == "PyErr_SetObject":
+            self.keyerr.append((st.guard, args[0], args[1]))
+            return fresh("ret_seterr")
+        if name in ("->accessed", "Py_INCREF", "_Py_INCREF", "_Py_IsImmortal", "Py_TYPE", "_Py_NewRef"):
+            return fresh("ret_" + name.strip("->"))
+        raise Unsupported("_bucket_get calls %s after the search" % name)
+
+    def on_return(self, st, v):
+        if v is None or not self.after or z3.is_int_value(z3.simplify(v)):
+            return
+        c = self.c
+        xg, ie, cmp_ = c["exit"]
+        hk = self.P["has_key"]
+        E = self.E
+        S = self.P["self"]
+        V0 = self.hread(E, "values", S)
+        vm = None
+        for x in walk(self.fn):
+            if x.get("kind") == "MemberExpr" and x.get("name") == "values":
+                q = x.get("type", {}).get("desugaredQualType") or x.get("type", {}).get("qualType", "")
+                vm = "*" + _one_star_less(q.replace("const ", "").replace(" ", ""))
+                break
+        stored = z3.Select(E.heap.get(vm, z3.Const("H0_" + vm, z3.ArraySort(INT, INT))), V0 + ie) if vm else None
+        keyerr = z3.Or(*[z3.And(g, e == z3.Int("G_PyExc_KeyError"), o == self.P["keyarg"]) for g, e, o in self.keyerr]) \
+            if self.keyerr else z3.BoolVal(False)
+        obj_values = vm is not None and "PyObject" in vm
+        G = {
+            "has_key:found": z3.Implies(z3.And(hk != 0, cmp_ == 0), z3.Or(v == 0, v == BOX(hk))),
+            "has_key:absent": z3.Implies(z3.And(hk != 0, cmp_ != 0), z3.Or(v == 0, v == BOX(z3.IntVal(0)))),
+            "lookup:absent_is_KeyError": z3.Implies(z3.And(hk == 0, cmp_ != 0), z3.And(v == 0, keyerr)),
+            "lookup:no_error_when_found": z3.Implies(z3.And(cmp_ == 0), z3.Not(keyerr)),
+        }
+        if stored is not None:
+            G["lookup:found_returns_stored"] = z3.Implies(z3.And(hk == 0, cmp_ == 0),
+                                                          (v == stored) if obj_values else z3.Or(v == 0, v == BOX(stored)))
+        for nm, g in G.items():
+            self.oblige(st, "F-LEAF:_bucket_get:" + nm, z3.Implies(xg, g))
+
+
+class FLeafAny(CExec):
+    family = "F-LEAF"
+
+    @classmethod
+    def applies(cls, tu, fn):
+        return fn in ("_bucket_set", "_bucket_get") and FSearch.applies(tu, fn)
+
+    def __new__(cls, tu, fname):
+        return {"_bucket_set": FLeaf, "_bucket_get": FGet}[fname](tu, fname)
+
+
+ANALYSIS = {"F-LEAF": FLeafAny}
